@@ -24,8 +24,10 @@ pub fn snapshot(xs: &mut Xstate) -> String {
         probe.get_data(0).map(canon::cell).unwrap_or_default()
     } else { String::new() };
     let vars: Vec<String> = xs.var_list().iter().map(|(n, c)| format!("{}={}", n, canon::cell(c))).collect();
-    format!("{} | host={} dict={} code={} dmap={} flows={} nested={} inputs={} mode={} marks={:?} | vars={}",
-        vmcanon::full_dump(xs), host, d.dict_len, d.code_len, d.debug_map_len, d.flows, d.nested, d.pending_inputs, d.mode, d.marks, vars.join(","))
+    // captured output as the public `read_stdout` reports it, taken from a throw-away copy (reading drains the buffer)
+    let cap = { let mut probe = xs.clone(); probe.read_stdout().map(|s| canon::hex(s.as_bytes())).unwrap_or("-".into()) };
+    format!("{} | cap={} host={} dict={} code={} dmap={} flows={} nested={} inputs={} mode={} marks={:?} | vars={}",
+        vmcanon::full_dump(xs), cap, host, d.dict_len, d.code_len, d.debug_map_len, d.flows, d.nested, d.pending_inputs, d.mode, d.marks, vars.join(","))
 }
 
 const SHARED_SETUP: &[&str] = &[
@@ -63,6 +65,19 @@ fn adversarial(r: &mut crate::rng::Rng) -> String {
     ];
     let n = r.below(3) + 1;
     (0..n).map(|_| *r.pick(&pool)).collect::<Vec<_>>().join(" ")
+}
+
+/// a source that loads a library file: which files an interpreter has loaded belongs to that interpreter alone
+fn file_source(ctx: &mut Ctx) -> String {
+    let dir = crate::lib_files(&ctx.scratch);
+    let f = *ctx.rng.pick(&["lib1", "lib2"]);
+    let w = if f == "lib1" { "libword1" } else { "libword2" };
+    match ctx.rng.below(4) {
+        0 => format!("require \"{}/{}.xeh\" {} ! cnt", dir, f, w),
+        1 => format!("include \"{}/{}.xeh\" {} ! cnt", dir, f, w),
+        2 => format!("require \"{}/{}.xeh\" require \"{}/{}.xeh\" {} println", dir, f, dir, f, w),
+        _ => format!("{} ! cnt", w),
+    }
 }
 
 struct Copy_ {
@@ -120,7 +135,8 @@ pub fn run(ctx: &mut Ctx) {
                     let src = if pool[i].d2 && ctx.rng.chance(40) {
                         touched_d2 = true;
                         (*ctx.rng.pick(&["1 2 d2-resize", "0 0 d2-data! ", "5 d2-color! 1 1 d2-data!", "2 5 d2-resize 0 1 d2-data drop"])).to_string()
-                    } else if ctx.rng.chance(60) { adversarial(&mut ctx.rng) } else { gen_program(&mut ctx.rng, &cfg).0 };
+                    } else if ctx.rng.chance(8) { ctx.tag("op:eval-file"); file_source(ctx) }
+                    else if ctx.rng.chance(60) { adversarial(&mut ctx.rng) } else { gen_program(&mut ctx.rng, &cfg).0 };
                     // correspondence: the model evaluates the same source on the machine as it is now
                     if !pool[i].d2 {
                         if let Some(t) = lex_all(&src) {
@@ -171,7 +187,7 @@ pub fn run(ctx: &mut Ctx) {
             let mut a = pool[i].xs.clone();
             let mut b = pool[i].xs.clone();
             let mut srcs = Vec::new();
-            for _ in 0..3 { srcs.push(if ctx.rng.bool() { adversarial(&mut ctx.rng) } else { gen_program(&mut ctx.rng, &cfg).0 }); }
+            for _ in 0..3 { srcs.push(if ctx.rng.chance(15) { file_source(ctx) } else if ctx.rng.bool() { adversarial(&mut ctx.rng) } else { gen_program(&mut ctx.rng, &cfg).0 }); }
             let mut ra = Vec::new(); let mut rb = Vec::new();
             for s in &srcs { ra.push(format!("{:?}", crate::guarded(|| a.eval(s)).map(|r| r.map_err(|e| canon::err(&e))))); }
             // interleave unrelated activity on the origin before replaying on the second snapshot
@@ -185,7 +201,7 @@ pub fn run(ctx: &mut Ctx) {
             // snapshot (by then the origin may have detached from shared buffers, so the snapshot owns them alone)
             let mut snap = pool[i].xs.clone();
             let mut srcs = Vec::new();
-            for _ in 0..3 { srcs.push(adversarial(&mut ctx.rng)); }
+            for _ in 0..3 { srcs.push(if ctx.rng.chance(15) { file_source(ctx) } else { adversarial(&mut ctx.rng) }); }
             let mut ro = Vec::new(); let mut rs = Vec::new();
             for s in &srcs { ro.push(format!("{:?}", crate::guarded(|| pool[i].xs.eval(s)).map(|r| r.map_err(|e| canon::err(&e))))); }
             for s in &srcs { rs.push(format!("{:?}", crate::guarded(|| snap.eval(s)).map(|r| r.map_err(|e| canon::err(&e))))); }
